@@ -10,6 +10,12 @@ Proof.
   - apply IH.
 Qed.
 
+Lemma read_le_app d a b t : read_le d (a ++ b) t = read_le (read_le d a t) b t.
+Proof.
+  revert d. induction a as [|[v e] a IH]; intro d; cbn [app read_le]; [reflexivity|].
+  destruct (Nat.leb v t); apply IH.
+Qed.
+
 Lemma read_le_all_above d es t :
   (forall v e, In (v, e) es -> t < v) -> read_le d es t = d.
 Proof.
